@@ -27,6 +27,35 @@ type c06Case struct {
 	Node     int    `json:"node"`
 	Slot     int    `json:"slot,omitempty"`
 	Imports  bool   `json:"imports,omitempty"` // import-bearing template, decorated with a resolver, restored with import management
+	// Edit: "" | "orphan-import" (the first import declaration is removed from Decls while File.Imports
+	// still lists its specs) | "restored" (Imports only: every other declaration removed and the tree
+	// restored once, so that the restorer itself dropped the unused imports)
+	Edit string `json:"edit,omitempty"`
+}
+
+// c06Edit leaves File.Imports holding specs that are no longer part of Decls.
+func c06Edit(cs c06Case, f *dst.File) *dst.File {
+	switch cs.Edit {
+	case "orphan-import":
+		for i, dcl := range f.Decls {
+			if gd, ok := dcl.(*dst.GenDecl); ok && gd.Tok == token.IMPORT {
+				f.Decls = append(f.Decls[:i:i], f.Decls[i+1:]...)
+				break
+			}
+		}
+	case "restored":
+		var keep []dst.Decl
+		for _, dcl := range f.Decls {
+			if gd, ok := dcl.(*dst.GenDecl); ok && gd.Tok == token.IMPORT {
+				keep = append(keep, dcl)
+			}
+		}
+		f.Decls = keep
+		if _, err := c06Print(cs, f); err != nil {
+			panic(err)
+		}
+	}
+	return f
 }
 
 // c06Print prints with or without import management, according to the case.
@@ -49,7 +78,7 @@ func c06Tree(cs c06Case) *dst.File {
 		if err != nil {
 			panic(err)
 		}
-		return f
+		return c06Edit(cs, f)
 	}
 	t, ok := gen.Find(gen.Templates(), cs.Template)
 	if !ok {
@@ -62,7 +91,7 @@ func c06Tree(cs c06Case) *dst.File {
 	if cs.Filled {
 		fillDecorations(f, "d")
 	}
-	return f
+	return c06Edit(cs, f)
 }
 
 func init() {
@@ -106,6 +135,14 @@ func runC06(ctx *core.Ctx, unit int) {
 			}
 		}
 		base := c06Case{Template: names[unit-n], Imports: true}
+		// the whole file cloned when File.Imports holds specs that Decls no longer has
+		for _, e := range []string{"", "orphan-import", "restored"} {
+			cs := base
+			cs.Mode, cs.Node, cs.Edit = "clone", 0, e
+			ctx.State(fmt.Sprintf("imports|%s|clone-file|%s", cs.Template, e), true)
+			ctx.Eval(cs, c06Check(cs))
+			ctx.R.Transitions++
+		}
 		f := c06Tree(base)
 		nodes := allNodes(f)
 		slots := allSlots(f)
@@ -220,7 +257,10 @@ func c06Check(cs c06Case) core.Outcome {
 	if cs.Mode == "share" {
 		return c06Share(cs, f, n, fail)
 	}
-	orig := mustPrint(f)
+	orig, perr := c06Print(cs, f)
+	if perr != nil {
+		return fail("engine:print", "%v", perr)
+	}
 
 	var c dst.Node
 	if p := guard(func() { c = dst.Clone(n) }); p != "" {
@@ -267,7 +307,7 @@ func c06Check(cs c06Case) core.Outcome {
 	var out string
 	if cs.Node == 0 {
 		var err error
-		if p := guard(func() { out, err = printFile(dst.Clone(f2).(*dst.File)) }); p != "" || err != nil {
+		if p := guard(func() { out, err = c06Print(cs, dst.Clone(f2).(*dst.File)) }); p != "" || err != nil {
 			return fail("clone-print-error:"+tn, "printing the cloned file failed: %s %v", p, err)
 		}
 	} else {
@@ -277,7 +317,7 @@ func c06Check(cs c06Case) core.Outcome {
 		}
 		s.Set(dst.Clone(n2))
 		var err error
-		if p := guard(func() { out, err = printFile(f2) }); p != "" || err != nil {
+		if p := guard(func() { out, err = c06Print(cs, f2) }); p != "" || err != nil {
 			return fail("clone-print-error:"+tn, "printing with the clone substituted failed: %s %v", p, err)
 		}
 	}
